@@ -22,7 +22,7 @@ EXEC_IDS = ("SendDispatcher::dispatch", "SendDispatcher::dispatch_par", "SendDis
             "Dispatcher::dispatch", "Dispatcher::dispatch_par", "Dispatcher::dispatch_seq")
 
 
-def run(ctx, report):
+def _run_rules(ctx, report):
     for config in ctx.configs:
         facts = ctx.facts(config)
         report.guard("C03.SET", P.barrier, ctx, report, "C03.SET", facts, config, ("set",))
@@ -33,3 +33,10 @@ def run(ctx, report):
         report.guard("C03.EXEC", F.check_family, ctx, report, "C03.EXEC", facts, config, (F.RUN,), lambda i: i in EXEC_IDS)
         report.guard("C03.TL", c12.order, ctx, report, facts, config, "C03.TL")
         report.guard("C03.TL", c12.where, ctx, report, facts, config, "C03.TL")
+
+
+def run(ctx, report):
+    _run_rules(ctx, report)
+    from .. import shared as _S
+    for config in ctx.configs:
+        report.guard("C03.ENCAPSULATED", _S.encapsulated, ctx, report, "C03.ENCAPSULATED", ctx.facts(config), config, "C03")
